@@ -319,4 +319,78 @@ def erun (e : ESt) : List ELabel → Option ESt
     | none => none
     | some e' => erun e' ls
 
+/-! ## the end of a key exchange over bounded connection buffers: release the read loop, then flush
+
+  Two endpoints (false / true), each finishing the same key exchange with `toFlush` queued packets; the connection
+  buffer i → peer holds at most `cap` packets (`ch`). Per endpoint:
+    exch      inside `enterKeyExchange`: its read loop is parked on `kex.done`, kexLoop itself reads the kex packets
+    flushing  closing critical section after `request.done <- …`: pushes the queued packets one by one; a push blocks
+              while the buffer towards the peer is full
+    idle      closing section left
+  `release i` (exch → flushing) is enabled as soon as i's `enterKeyExchange` can finish: the peer's NEWKEYS precedes
+  the peer's flushed packets on the wire, so it does not depend on the buffer contents modelled here.
+  A packet is taken out of the buffer i → j only by j's read loop, i.e. only while it is not parked:
+    `early = true`  (the code as written): the read loop is released *before* the flush — free in `flushing` and `idle`
+    `early = false` (the other order): released after the flush — free only in `idle`. -/
+
+inductive DPhase | exch | flushing | idle
+deriving DecidableEq, Repr
+
+structure DEnd where
+  phase : DPhase
+  toFlush : Nat
+deriving DecidableEq, Repr
+
+structure DSt where
+  e : Bool → DEnd
+  ch : Bool → Nat          -- ch i = packets in the buffer from endpoint i to its peer
+  cap : Nat
+
+inductive DLabel
+  | release (i : Bool)
+  | flushOne (i : Bool)
+  | flushDone (i : Bool)
+  | consume (j : Bool)     -- j's read loop takes one packet sent by its peer
+deriving DecidableEq, Repr
+
+def readerFree (early : Bool) (p : DPhase) : Bool :=
+  match p with
+  | .exch => false
+  | .flushing => early
+  | .idle => true
+
+def setE (s : DSt) (i : Bool) (x : DEnd) : DSt := { s with e := fun k => if k = i then x else s.e k }
+def setCh (s : DSt) (i : Bool) (n : Nat) : DSt := { s with ch := fun k => if k = i then n else s.ch k }
+
+def dstep (early : Bool) (s : DSt) : DLabel → Option DSt
+  | .release i => if (s.e i).phase == .exch then some (setE s i { (s.e i) with phase := .flushing }) else none
+  | .flushOne i =>
+    if (s.e i).phase == .flushing && decide (0 < (s.e i).toFlush) && decide (s.ch i < s.cap) then
+      some (setCh (setE s i { (s.e i) with toFlush := (s.e i).toFlush - 1 }) i (s.ch i + 1))
+    else none
+  | .flushDone i =>
+    if (s.e i).phase == .flushing && (s.e i).toFlush == 0 then some (setE s i { (s.e i) with phase := .idle }) else none
+  | .consume j =>
+    if readerFree early (s.e j).phase && decide (0 < s.ch (!j)) then some (setCh s (!j) (s.ch (!j) - 1)) else none
+
+def dStuck (early : Bool) (s : DSt) : Prop := ∀ l, dstep early s l = none
+
+def dDone (s : DSt) : Prop := ∀ i, (s.e i).phase = .idle ∧ s.ch i = 0
+
+def drun (early : Bool) (s : DSt) : List DLabel → Option DSt
+  | [] => some s
+  | l :: ls => match dstep early s l with
+    | none => none
+    | some s' => drun early s' ls
+
+def phaseWeight : DPhase → Nat
+  | .exch => 2
+  | .flushing => 1
+  | .idle => 0
+
+/-- strictly decreases with every step -/
+def dMeasure (s : DSt) : Nat :=
+  phaseWeight (s.e false).phase + phaseWeight (s.e true).phase + 2 * (s.e false).toFlush + 2 * (s.e true).toFlush
+    + s.ch false + s.ch true
+
 end XC.C31
